@@ -62,7 +62,7 @@ Next ==
         IF w = "ok" THEN TRUE
         ELSE PrintT("REJECT " \o ToJson([scn |-> e.scn, line |-> l, why |-> w,
                                          known |-> IF w = "items" /\ AcceptsK(e) THEN "spurious-ESC-backslash:after-empty-osc" ELSE "",
-                                         at |-> Diverge(Explode(e.items, <<>>), Run(Init0, e.in).out, "")]))
+                                         at |-> Diverge(Explode(e.items, <<>>), BestOut(Explode(e.items, <<>>), e.in), "")]))
      ELSE TRUE
 
 Spec == Init /\ [][Next]_vars
